@@ -13,7 +13,10 @@ use serde_json::json;
 fn t(s: &str) -> M { M::Leaf(V::Text(s.into())) }
 fn originals() -> Vec<M> {
     let a = |p: &str, o: &str| M::Assertion(Box::new(t(p)), Box::new(t(o)));
-    vec![t("Secret"), M::Node(Box::new(t("Secret")), vec![a("meta", "data")]), M::Wrapped(Box::new(M::Node(Box::new(t("Secret")), vec![a("meta", "data"), a("k", "v")])))]
+    let mut v = vec![t("Secret"), M::Node(Box::new(t("Secret")), vec![a("meta", "data")]), M::Wrapped(Box::new(M::Node(Box::new(t("Secret")), vec![a("meta", "data"), a("k", "v")])))];
+    // nodes whose subject is a node (decrypting must rebuild exactly that)
+    v.extend(crate::families::nsn().into_iter().take(2));
+    v
 }
 /// all policies: tuples of g groups (t_i, n_i), 1<=t<=n<=N, group threshold 1..g
 fn policies(gmax: usize, nmax: usize) -> Vec<(usize, Vec<(usize, usize)>)> {
@@ -46,7 +49,7 @@ pub fn run(ctx: &Ctx) -> i32 {
         // SSKR with a 1-of-n group and SSKR validity rules: the sskr crate refuses some specs (e.g. threshold 1 with n > 1); a refused spec is not a violation
         let spec = match groups.iter().map(|&(t, n)| SSKRGroupSpec::new(t, n)).collect::<Result<Vec<_>, _>>().and_then(|g| SSKRSpec::new(*gt, g)) { Ok(s) => s, Err(_) => { acc.inc("specs_refused_by_sskr"); return acc } };
         // in the quick tier the three envelopes rotate over the policies; thorough: all three for every policy
-        let which: Vec<usize> = if th && groups.iter().map(|g| g.1).sum::<usize>() <= 8 { vec![0, 1, 2] } else { vec![pi % 3] };
+        let which: Vec<usize> = if th && groups.iter().map(|g| g.1).sum::<usize>() <= 8 { (0..origs.len()).collect() } else { vec![pi % origs.len()] };
         for oi in which {
             let m = &origs[oi];
             let e = bind::build(m, 0);
@@ -128,7 +131,7 @@ pub fn run(ctx: &Ctx) -> i32 {
         let mut acc = Acc::new();
         let spec = match groups.iter().map(|&(t, n)| SSKRGroupSpec::new(t, n)).collect::<Result<Vec<_>, _>>().and_then(|g| SSKRSpec::new(*gt, g)) { Ok(s) => s, Err(_) => { acc.inc("specs_refused_by_sskr"); return acc } };
         acc.inc("big_policies");
-        let m = &origs[pi % 3]; let e = bind::build(m, 0);
+        let m = &origs[pi % origs.len()]; let e = bind::build(m, 0);
         let enc = e.encrypt_subject_opt(&key, Some(bind::nonce0())).unwrap();
         let want = bind::observe(&e.subject());
         let mut rng = SeededRandomNumberGenerator::new([pi as u64 + 100, 2, 3, 4]);
